@@ -171,6 +171,9 @@ func Gen(store string) func(t *rapid.T) *Case {
 					op.Data = strings.ReplaceAll(op.Data, "1e400", "1e300")
 				}
 				op.TS = genTS(t, true)
+				if rapid.IntRange(0, 15).Draw(t, "big") == 0 {
+					op.Pad = rapid.SampledFrom([]int{100, 1000, 4000, 5000, 70000}).Draw(t, "pad")
+				}
 			case "read":
 				op.From = genRef(t)
 				op.Limit = rapid.SampledFrom(limits).Draw(t, "limit")
